@@ -17,12 +17,16 @@ type CutCase struct {
 	Cut      int    `json:"cut"` // the client's stream ends after this many octets
 	Term     string `json:"term"`
 	PerOctet bool   `json:"per_octet"`
+	// WithErr: the last octets before the cut arrive TOGETHER with the end of the stream (n > 0 and io.EOF from one
+	// Read, as crypto/tls returns them when a close_notify is waiting behind the data)
+	WithErr bool `json:"with_err,omitempty"`
 }
 
 func runCut(c CutCase) (*h.Obs, *h.Backend) {
 	cfg, be := modeConfig(c.Conv.Mode)
 	cfg.MaxMessageBytes = c.Conv.Limit
 	cfg.Timeouts = c.Term == h.TermTimeout // an idle timeout presupposes that the server arms its deadlines
+	cfg.FinalWithErr = c.WithErr
 	in := c.Conv.In[:c.Cut]
 	var segs [][]byte
 	if c.PerOctet {
@@ -35,7 +39,7 @@ func runCut(c CutCase) (*h.Obs, *h.Backend) {
 
 func evalC07(c CutCase) *h.Finding {
 	o, _ := runCut(c)
-	desc := fmt.Sprintf("conv=%s/%s cut=%d/%d term=%s peroctet=%t sent=%q", c.Conv.Name, c.Conv.Mode, c.Cut, len(c.Conv.In), c.Term, c.PerOctet, tailStr(c.Conv.In[:c.Cut], 60))
+	desc := fmt.Sprintf("conv=%s/%s cut=%d/%d term=%s peroctet=%t last-octets-with-the-error=%t sent=%q", c.Conv.Name, c.Conv.Mode, c.Cut, len(c.Conv.In), c.Term, c.PerOctet, c.WithErr, tailStr(c.Conv.In[:c.Cut], 60))
 	if f := o.Sanity("c07", desc); f != nil {
 		return f
 	}
@@ -100,7 +104,7 @@ func C07(tier string) int {
 	run := h.NewRun("C07", tier, "fault_enumeration", "", 20*time.Minute)
 	corpus := TransferCorpus()
 	terms := []string{h.TermEOF, h.TermTimeout, h.TermReset}
-	run.Rule = fmt.Sprintf("corpus of %d DATA/BDAT conversations (SMTP, LMTP, LMTP per-recipient backend; dots, terminator look-alikes, empty message, size limit, 1-3 chunks, LAST on empty/non-empty chunk, two messages per connection, abandoned transfers followed by RSET/QUIT/EHLO/NOOP/MAIL/DATA) x EVERY byte offset as the point where the client's stream ends x terminal answer {EOF, timeout error, reset error} x {prefix in one segment, one octet per segment}. Distinct by construction; non-trivial = the cut lies inside or after the first message transfer. Oracle: reader ends with EOF iff the whole message arrived, and then the octets equal the message; otherwise a non-EOF error, delivered octets are a prefix, and the final reply position holds no 2xx.", len(corpus))
+	run.Rule = fmt.Sprintf("corpus of %d DATA/BDAT conversations (SMTP, LMTP, LMTP per-recipient backend; dots, terminator look-alikes, empty message, size limit, 1-3 chunks, LAST on empty/non-empty chunk, two messages per connection, abandoned transfers followed by RSET/QUIT/EHLO/NOOP/MAIL/DATA) x EVERY byte offset as the point where the client's stream ends x terminal answer {EOF, timeout error, reset error (both as *net.OpError, as sockets return them), EOF delivered together with the last octets in one Read} x {prefix in one segment, one octet per segment}. Distinct by construction; non-trivial = the cut lies inside or after the first message transfer. Oracle: reader ends with EOF iff the whole message arrived, and then the octets equal the message; otherwise a non-EOF error, delivered octets are a prefix, and the final reply position holds no 2xx.", len(corpus))
 	run.Assumptions = []string{"the backend returns the reader's error (a backend that swallows it claims success itself)", "cuts inside the CRLF of a final 'BDAT 0 LAST' line are not judged (all message octets and the LAST token have arrived)"}
 	type job struct {
 		ci, cut int
@@ -117,9 +121,19 @@ func C07(tier string) int {
 		}
 		j := jobs[i]
 		cv := corpus[j.ci]
+		type variant struct {
+			term         string
+			per, withErr bool
+		}
+		var variants []variant
 		for _, term := range terms {
-			for _, per := range []bool{false, true} {
-				c := CutCase{Conv: cv, Cut: j.cut, Term: term, PerOctet: per}
+			variants = append(variants, variant{term, false, false}, variant{term, true, false})
+		}
+		variants = append(variants, variant{h.TermEOF, false, true}, variant{h.TermEOF, true, true})
+		for _, v := range variants {
+			{
+				term, per := v.term, v.per
+				c := CutCase{Conv: cv, Cut: j.cut, Term: term, PerOctet: per, WithErr: v.withErr}
 				f := evalC07(c)
 				run.Eval(len(cv.Msgs) > 0 && j.cut > cv.Msgs[0].Start)
 				if f != nil {
